@@ -75,12 +75,11 @@ class BuildLock:
 
 
 def build_coq(targets: list[str], timeout: int = 1500) -> tuple[bool, str]:
-    """make the given .vo targets (paths relative to coq/). Returns (ok, log)."""
-    with BuildLock():
-        subprocess.run([str(VERIF / "tools/gen_coqproject.sh")], check=True)
-        cmd = ["timeout", str(timeout), "make", "-k", f"-j{NPROC}"] + targets
-        p = subprocess.run(cmd, cwd=COQ, capture_output=True, text=True)
-        return p.returncode == 0, p.stdout + p.stderr
+    """Build the given .vo targets (paths relative to coq/) with tools/build.py
+    (coqdep + plain coqc, per-file locks; full .vo, never -vos). Returns (ok, log)."""
+    cmd = ["python3", str(VERIF / "tools/build.py"), f"-j{NPROC}", "--timeout", str(timeout)] + targets
+    p = subprocess.run(cmd, cwd=VERIF, capture_output=True, text=True)
+    return p.returncode == 0, p.stdout + p.stderr
 
 
 def coqc_file(path: Path, timeout: int = 600) -> tuple[int, str]:
@@ -260,8 +259,8 @@ class Run:
         self.cov["discharged"] = disch
         self.cov["theorems"] = rep["theorems"]
         self.cov["axioms_per_theorem"] = rep["assumptions"]
-        self.cov["checker_cmd"] = (f"make -C coq {' '.join(targets)} && coqc -R coq PV coq/Props/{self.pid}.v "
-                                   "(full .vo build; Print Assumptions under every theorem)")
+        self.cov["checker_cmd"] = (f"python3 tools/build.py {' '.join(targets)} && coqc -R coq PV coq/Props/{self.pid}.v "
+                                   "(full .vo build by coqc; Print Assumptions under every theorem)")
         axioms = sorted({a for v in rep["assumptions"].values() for a in v})
         tb = [KERNEL_TB,
               "axioms reported by Print Assumptions: " + (", ".join(axioms) if axioms else "none (all theorems closed under the global context)"),
